@@ -13,7 +13,8 @@ ASSUME = [
     "control connection, which is the 'config' step and may be refused); 'onion:' strings without controlPort (they launch a global "
     "Tor) and authenticated services (they need real RSA keys for the permanent id) are not driven",
     "one fault per run: configuration Deferred fails, local bind raises CannotListenError, ADD_ONION / SETCONF answered 512, every "
-    "descriptor upload FAILED, control connection lost while the creation command or the descriptor wait is outstanding",
+    "descriptor upload FAILED, control connection lost while the creation command, the descriptor wait or the final unsubscription "
+    "(SETEVENTS without HS_DESC, answered in a step of its own) is outstanding",
     "the reactor is a fake whose listenTCP hands out port numbers and records open listeners and their interface",
 ]
 
